@@ -28,6 +28,10 @@ Readings adopted where the statement leaves room
     body is, the empty body included: the body cannot be interpreted, so no body- or method-dependent verdict (400, 404, 200)
     may take its place; only the size cap (413) and authentication (401), which do not look at the body, may come first.
     Beyond the grid, every body class is crossed with eight unsupported tokens and with zstd on a zstd-disabled server.
+  * a "bad token" is any token text the server did not mint in exactly that form, wherever the server reads it; beyond the
+    grid's three token states, _token_cross presents ~20 named mutations (non-canonical base64 included) of the cursor and of
+    the call token on exchange, continuation and cancel requests, with the call-state cache warm and disabled.  A defective
+    call token under a warm cache is not read (C14's subject): only "no 5xx" and "Arrow body" are demanded there.
   * Content-Encoding "identity" is not in the grid (its handling belongs to C17 and is changing).
 """
 from __future__ import annotations
@@ -84,14 +88,14 @@ def _defects(d: dict[str, str]) -> list[int]:
     return out
 
 
-def _key_for(d: dict[str, str], o: dict[str, Any], kind: str) -> str:
+def _key_for(d: dict[str, str], o: dict[str, Any], kind: str, cause: str | None = None) -> str:
     if kind == "5xx":
-        return f"5xx-{d['route']}-{d['body']}"
+        return f"5xx-{d['route']}-{cause or _causes(d)[0]}"
     if kind == "body":
-        cause = "oversize" if o["status"] == 413 else ("undecodable-content-encoding" if d["cenc"] == "corrupt" else d["body"])
-        return f"non-arrow-body-{o['status']}-{cause}"
+        c = cause or ("oversize" if o["status"] == 413 else ("undecodable-content-encoding" if d["cenc"] == "corrupt" else d["body"]))
+        return f"non-arrow-body-{o['status']}-{c}"
     if kind == "200":
-        return "200-without-dispatch-" + _causes(d)[0]
+        return "200-without-dispatch-" + (cause or _causes(d)[0])
     return kind
 
 
@@ -117,18 +121,20 @@ def _causes(d: dict[str, str]) -> list[str]:
     return out or ["no-defect"]
 
 
-def _oracle(ctx: Any, d: dict[str, str], o: dict[str, Any], replay: dict[str, Any]) -> None:
+def _oracle(ctx: Any, d: dict[str, str], o: dict[str, Any], replay: dict[str, Any], cause: str | None = None, cancel: bool = False) -> None:
+    """The statement's predicate on one response.  ``cause`` names the defect in the violation key when the descriptor's
+    class is realised by a specific named variant (token crosses); ``cancel`` = a cancel request (answered without process())."""
     st = o["status"]
     defects = _defects(d)
     if st >= 500 or st not in ALLOWED:
-        ctx.violation(_key_for(d, o, "5xx") if st >= 500 else f"status-{st}-outside-the-mapping", f"client-controlled request answered with HTTP {st}", replay)
+        ctx.violation(_key_for(d, o, "5xx", cause) if st >= 500 else f"status-{st}-outside-the-mapping", f"client-controlled request answered with HTTP {st}", replay)
         return
     if d["cenc"] == "unknown" and st != 415 and not (st == 413 and 413 in defects) and not (st == 401 and 401 in defects):
         # an unsupported (unknown or disabled) coding means the body cannot be interpreted at all: whatever the body is -- empty
         # included -- the answer is 415 (only the size cap and authentication, which do not look at the body, may come first)
         ctx.violation("unsupported-content-encoding-not-415", f"unsupported Content-Encoding answered {st} (body class {d['body']}, method {d['method']})", replay)
     if st not in (401, 415) and not (o["body"] in ("arrow_ok", "arrow_err") and o["ctype"] == "arrow"):
-        ctx.violation(_key_for(d, o, "body"), f"HTTP {st} response is not a decodable Arrow IPC body (content type {o['ctype']}, body {o['body']})", replay)
+        ctx.violation(_key_for(d, o, "body", cause), f"HTTP {st} response is not a decodable Arrow IPC body (content type {o['ctype']}, body {o['body']})", replay)
     ran = [c for c in o["calls"] if not c.endswith("!")]
     raised = any(c.endswith("!") for c in o["calls"])
     if st == 200:
@@ -136,7 +142,11 @@ def _oracle(ctx: Any, d: dict[str, str], o: dict[str, Any], replay: dict[str, An
         turn_refused = d["route"] == "exchange" and d["method"] == "known" and d["body"] == "bad_params"
         describe = d["route"] == "unary" and d["method"] == "known_alt"
         if defects:
-            ctx.violation(_key_for(d, o, "200"), f"a request with defects {defects} was answered 200 (marker={o['marker']}, implementation ran {ran})", replay)
+            ctx.violation(_key_for(d, o, "200", cause), f"a request with defects {defects} was answered 200 (marker={o['marker']}, implementation ran {ran})", replay)
+            return
+        if cancel:
+            if o["marker"] or o["body"] != "arrow_ok" or o["calls"]:
+                ctx.violation("cancel-answer-shape", f"cancel answered marker={o['marker']} body={o['body']} calls={o['calls']}", replay)
             return
         if not (ran or describe or turn_refused):
             ctx.violation("200-but-nothing-dispatched", "200 although the implementation was not reached", replay)
@@ -149,7 +159,7 @@ def _oracle(ctx: Any, d: dict[str, str], o: dict[str, Any], replay: dict[str, An
             ctx.violation("error-batch-vs-failure-mismatch", f"body={o['body']} but the call failed={failed}", replay)
     else:
         if st not in defects:
-            ctx.violation(f"status-{st}-not-justified-{d['route']}-{d['body']}-{d['cenc']}", f"HTTP {st} but the request's defects justify {defects or 'none (should be 200)'}", replay)
+            ctx.violation(f"status-{st}-not-justified-{d['route']}-{cause or d['body']}-{d['cenc']}", f"HTTP {st} but the request's defects justify {defects or 'none (should be 200)'}", replay)
         if o["marker"]:
             ctx.violation(f"marker-on-{st}", "error marker on a refusal", replay)
         if o["calls"]:
@@ -183,6 +193,66 @@ def _coding_cross(ctx: Any, D: Any, world: Any) -> list[tuple[tuple[int, ...], i
                       "body_hex": wire[:4096].hex(), "body_len": len(wire), "observed": {k: o[k] for k in ("status", "marker", "ctype", "body", "error", "calls")}}
             _oracle(ctx, dd, o, replay)
             out.append((d, _code(o), replay))
+    return out
+
+
+def _token_cross(ctx: Any, D: Any, world: Any) -> list[tuple[tuple[int, ...], int, dict[str, Any]]]:
+    """Every named way of presenting a token the server did not mint in that form (harness token_mutations: non-canonical
+    base64 by trailing-bit flip of a minted token, forged non-canonical, garbage in valid base64, wrong padding, foreign
+    characters, empty, absent, bit flip, truncation, another key's token, ...), for the CURSOR token and for the CALL token,
+    on exchange turns, producer continuations and cancel requests; on the normal (warm call-state cache) apps and on an
+    app whose cache is disabled (so that the presented call token is really opened).
+    A defective cursor token is the statement's "bad token" everywhere: 400.  A defective call token is a bad token
+    where it is read (cold cache): 400; where the cache answers (warm) it is not consulted -- that is C14's subject -- and
+    only the statement's global clauses apply (no 5xx, Arrow body, 200 shape)."""
+    out = []
+    ix = {n: D.DIMS[i].index for i, n in enumerate(D.DIM_NAMES)}
+    for method_cls, name in (("known", "e"), ("known_alt", "p")):
+        other = world.tokens(False, False, name, 1, client=world._other)
+        for app_name, client, auth_on, cap_on in (("warm", None, False, False), ("warm-auth-cap", None, True, True), ("cold", world.cold_client, False, False)):
+            if client is None:
+                cur, call = world.tokens(auth_on, cap_on, name, 1)
+                cl = world.clients[(auth_on, cap_on)]
+            else:
+                cur, call = world.tokens(False, False, name, 1, client=client)
+                cl = client
+            hdr = {"Content-Type": D.ARROW_CT}
+            if auth_on:
+                hdr["Authorization"] = D.GOOD_CRED
+            for which in ("cursor", "call"):
+                muts = D.token_mutations(cur if which == "cursor" else call, other[0] if which == "cursor" else other[1])
+                muts["valid"] = cur if which == "cursor" else call
+                if which == "cursor":
+                    muts["call-token-as-cursor"] = call
+                else:
+                    muts["cursor-token-as-call"] = cur
+                for mname, tok in muts.items():
+                    for cancel in (False, True):
+                        c, k = (tok, call) if which == "cursor" else (cur, tok)
+                        body = D.exchange_body(name, c, k, cancel=cancel)
+                        req = {"app": (auth_on, cap_on), "path": f"/{name}/exchange", "headers": hdr, "body": body}
+                        o = world.observe(req, client=cl)
+                        ctx.count("impl_runs")
+                        ctx.count("token_cross_runs")
+                        read = which == "cursor" or app_name == "cold"     # is the mutated token one the server opens?
+                        defective = mname != "valid" and read
+                        d = (ix["route"]("exchange"), ix["method"](method_cls), 0, 0, 0, ix["token"]("tampered" if defective else "valid"),
+                             ix["auth"]("good" if auth_on else "off"), ix["cap"]("on" if cap_on else "off"), 0)
+                        dd = D.describe(d)
+                        cause = None if mname == "valid" else f"{mname}-{which}-token" + ("-on-cancel" if cancel else "")
+                        replay = {"descriptor": dd, "token": which, "mutation": mname, "cancel": cancel, "call_state_cache": app_name, "stream": name,
+                                  "token_text": None if tok is None else tok[:80].decode("latin-1"), "path": req["path"], "body_hex": body[:4096].hex(),
+                                  "observed": {k2: o[k2] for k2 in ("status", "marker", "ctype", "body", "error", "calls")}}
+                        if mname != "valid" and not read:
+                            # warm cache: the call token is not consulted; only the global clauses of the statement apply
+                            if o["status"] >= 500 or o["status"] not in ALLOWED:
+                                ctx.violation(f"5xx-exchange-{cause}" if o["status"] >= 500 else f"status-{o['status']}-outside-the-mapping", f"client-controlled request answered with HTTP {o['status']}", replay)
+                            elif o["status"] not in (401, 415) and not (o["body"] in ("arrow_ok", "arrow_err") and o["ctype"] == "arrow"):
+                                ctx.violation(f"non-arrow-body-{o['status']}-{cause}", f"HTTP {o['status']} response is not a decodable Arrow IPC body", replay)
+                            continue
+                        _oracle(ctx, dd, o, replay, cause=cause, cancel=cancel and not defective)
+                        if not cancel or defective:
+                            out.append((d, _code(o), replay))
     return out
 
 
@@ -315,7 +385,7 @@ def run(ctx: Any) -> None:
                                      "observed": {k: o[k] for k in ("status", "marker", "ctype", "body", "error", "calls")}})
                 if _code(o) != observed[d]:
                     disagree.append((dd, variant_of[d], observed[d], v, _code(o)))
-        cross = _coding_cross(ctx, D, world)
+        cross = _coding_cross(ctx, D, world) + _token_cross(ctx, D, world)
         ctx.obligation("harness:variants-of-a-class-agree", "correspondence", not disagree, f"{len(disagree)} descriptors whose variants differ, e.g. {disagree[:2]}")
         ctx.log(f"real app: {ctx.counters.get('impl_runs', 0)} requests in {time.time() - t0:.1f}s")
     finally:
